@@ -323,6 +323,36 @@ def prove_under(pc, goal, solver=None, ctxobj=None, timeout_ms: int = 10000) -> 
         s.add(*pc)
         own = True
     t = time.time()
+    # a goal that is (an instance of) an assumption is settled by the solver at once: ask it first, briefly
+    s.push()
+    try:
+        s.set("timeout", 1500)
+        s.add(z3.Not(goal))
+        quick = s.check()
+    except z3.Z3Exception:
+        quick = z3.unknown
+    finally:
+        s.pop()
+        s.set("timeout", getattr(s, "_verif_timeout", timeout_ms))
+    if quick == z3.unsat:
+        return {"status": "discharged", "by": "z3"}
+    if quick == z3.unknown:
+        # the same question against the LIGHT assertions only (no sums / products / quotients of unknowns among the hypotheses):
+        # a subset of the assumptions, so 'unsat' is sound; it settles goals that only need propositional / linear reasoning
+        # but sit in a context that has drifted into non-linear arithmetic
+        try:
+            from . import sumnf as _snf
+
+            ls = _snf._light(s)
+            ls.push()
+            try:
+                ls.add(z3.Not(goal))
+                if ls.check() == z3.unsat:
+                    return {"status": "discharged", "by": "z3 (light context)"}
+            finally:
+                ls.pop()
+        except z3.Z3Exception:
+            pass
     s.push()
     try:
         if "SumOver_" in goal.sexpr()[:200000]:
